@@ -47,7 +47,8 @@ pub fn replay_one(b: &Value, rng: &mut StdRng) -> Option<String> {
     let mut bb = vec![0.0; m];
     for i in 0..m {
         bb[i] = match bcls[i] { "fin" => s0[i] + (0..n).map(|j| a[i][j] * x0[j]).sum::<f64>(), // "at or above": half of the instances sit exactly at the bound
-            "big" => if rng.gen::<bool>() { 1e15 } else { 1e10 }, _ => if rng.gen::<bool>() { 1e30 } else { 1e20 } };
+            "big" => if rng.gen::<bool>() { 1e15 } else { 1e10 }, "neg" => if rng.gen::<bool>() { -1e30 } else { -1e20 },
+            _ => if rng.gen::<bool>() { 1e30 } else { 1e20 } };
         if bcls[i] != "fin" { z0[i] = 0.0; }
     }
     let mut q = vec![0.0; n];
@@ -138,6 +139,13 @@ pub fn replay_one(b: &Value, rng: &mut StdRng) -> Option<String> {
         if s2.solution.status != sol.status || s2.solution.iterations != sol.iterations {
             return Some(format!("ends {:?} after {} iterations but the hand-reduced problem (same internal data) ends {:?} after {}",
                                 sol.status, sol.iterations, s2.solution.status, s2.solution.iterations));
+        }
+        // ... and so are the figures reported about it (residual normalisation included)
+        let same_bits = |a: f64, b: f64| a.to_bits() == b.to_bits() || (a.is_nan() && b.is_nan());
+        if !(same_bits(sol.r_prim, s2.solution.r_prim) && same_bits(sol.r_dual, s2.solution.r_dual) && same_bits(sol.obj_val, s2.solution.obj_val)
+             && same_bits(sol.obj_val_dual, s2.solution.obj_val_dual)) {
+            return Some(format!("reported (r_prim, r_dual, obj, obj_dual) = ({:e}, {:e}, {}, {}) but the hand-reduced problem (same internal data) reports ({:e}, {:e}, {}, {})",
+                                sol.r_prim, sol.r_dual, sol.obj_val, sol.obj_val_dual, s2.solution.r_prim, s2.solution.r_dual, s2.solution.obj_val, s2.solution.obj_val_dual));
         }
         if sol.status != SolverStatus::Solved { return None; }
         let s_red: Vec<f64> = kept.iter().map(|&i| sol.s[i]).collect();
